@@ -51,6 +51,26 @@ def check_case(ctx, case):
     b = impl.canon_record(out << k, rid=3)
     if a.seq != b.seq or denot(a.feats, n) != denot(b.feats, n):
         ctx.fail("rc(r >> {0}) differs from rc(r) << {0}".format(k), case)
+    # the feature table is curated in place (same number of features), then reverse-complemented again
+    if n >= 2 and rec.features:
+        from Bio.SeqFeature import SeqFeature, SimpleLocation
+        a = ctx.rng.randrange(n)
+        b = ctx.rng.randint(a + 1, n)
+        rec.features[ctx.rng.randrange(len(rec.features))] = SeqFeature(
+            SimpleLocation(a, b, ctx.rng.choice([1, -1])), type="misc_feature", qualifiers={"label": ["u98"]})
+        fresh = impl.CircularRecord(rec)
+        g = impl.canon_record(rec.reverse_complement(), rid=3)
+        w = impl.canon_record(fresh.reverse_complement(), rid=3)
+        if g.seq != w.seq or denot(g.feats, n) != denot(w.feats, n):
+            ctx.fail("after replacing a feature in place, reverse_complement() still answers for the feature "
+                     "table as it was before", case)
+        # results handed out earlier are the caller's: emptying one must not show in the next
+        r1 = rec.reverse_complement()
+        k1 = len(r1.features)
+        del r1.features[:]
+        if len(rec.reverse_complement().features) != k1:
+            ctx.fail("two calls of reverse_complement() share their feature list", case)
+        ctx.note("edited-then-rc")
     ctx.note("feats={}".format(min(len(feats), 5)))
     ctx.case(case, nontrivial=(n >= 2 and len(feats) > 0))
     ctx.op(("RC", wd, feats), case)
